@@ -54,8 +54,15 @@ impl Q {
     }
 }
 
+/// set per model (one model per process): queues are built with a metrics recorder
+pub static WITH_RECORDER: std::sync::atomic::AtomicBool = std::sync::atomic::AtomicBool::new(false);
+
 pub fn build(boxed: bool, capacity: usize, stream: RecStream) -> (Q, BackgroundQueueJoinHandle) {
-    let b = BackgroundQueueBuilder::new().capacity(capacity);
+    let mut b = BackgroundQueueBuilder::new().capacity(capacity);
+    if WITH_RECORDER.load(std::sync::atomic::Ordering::Relaxed) {
+        let (rec, _counts) = CountingRecorder::new();
+        b = b.metrics_recorder_local::<dyn metrics_024::Recorder, _>(rec);
+    }
     if boxed {
         let (q, h) = b.build_boxed(stream);
         (Q::Boxed(q), h)
@@ -215,6 +222,7 @@ pub fn c04(cfg: &Value) {
     let boxed = cfg["boxed"].as_bool().unwrap_or(false);
     let flushers = cfg["flushers"].as_u64().unwrap_or(1) as usize;
     PROBE_FIRST.store(cfg["probe_first"].as_bool().unwrap_or(false), std::sync::atomic::Ordering::Relaxed);
+    WITH_RECORDER.store(cfg["recorder"].as_bool().unwrap_or(false), std::sync::atomic::Ordering::Relaxed);
     if let Some(k) = cfg["jump_k"].as_u64() {
         vtime::jump_at_read(k, Duration::from_secs(2));
     }
@@ -522,7 +530,7 @@ pub fn c05_drop(cfg: &Value) {
         vtime::jump_at_read(k, Duration::from_secs(cfg["jump_secs"].as_u64().unwrap_or(2)));
     }
     let (stream, log) = RecStream::new(BTreeMap::new());
-    let (q, handle) = build(boxed, 8, stream);
+    let (q, handle) = build(boxed, cfg["cap"].as_u64().unwrap_or(8) as usize, stream);
     let returned: Visible<Vec<Tag>> = Visible::new();
     let producer = {
         let (q, returned) = (q.clone(), returned.clone());
